@@ -436,10 +436,12 @@ def history(draw, max_len):
             sub, dt, top = draw(st.integers(0, 255)), None, False
         n = draw(lengths(max_len))
         text = draw(st.integers(0, 5)) == 0
-        if text:
+        if text and n <= 1500:
             data = draw(st.text(st.characters(min_codepoint=1, max_codepoint=127, exclude_characters="\r"),
                                 min_size=n, max_size=n)).encode("ascii")
-        elif draw(st.integers(0, 3)) == 0:
+        elif text:
+            data = ascii_payload(n, draw(st.integers(0, 255)))
+        elif n <= 1500 and draw(st.integers(0, 3)) == 0:
             data = draw(st.binary(min_size=n, max_size=n))
         else:
             data = _payload(n, draw(st.integers(0, 255)))
